@@ -27,6 +27,7 @@ class ComputeOxUnrollSTE(torch.autograd.Function):
     """Torch autograd function that computes the optimal ox_unroll for the Diana analog accelerator"""
     @staticmethod
     def forward(ctx, ch_eff, ch_in, k_x, k_y):
+        ch_eff = torch.as_tensor(ch_eff)
         device = ch_eff.device
         ox_unroll_list = [1, 2, 4, 8]
         ox_unroll = torch.as_tensor(ox_unroll_list, device=device)
@@ -46,7 +47,7 @@ class FloorSTE(torch.autograd.Function):
     """Torch autograd function that turns a number of channels ch into its next integer multiple of N"""
     @staticmethod
     def forward(ctx, ch, N):
-        return torch.floor((ch + N - 1) / N)
+        return torch.floor(torch.as_tensor((ch + N - 1) / N))
 
     @staticmethod
     def backward(ctx, grad_output):
@@ -62,6 +63,7 @@ class GateSTE(torch.autograd.Function):
     """Torch autograd function that gates the number of channels of a layer based on a threshold"""
     @staticmethod
     def forward(ctx, ch, th):
+        ch = torch.as_tensor(ch)
         ctx.save_for_backward(ch, torch.tensor(th))
         return (ch >= th).float()
 
